@@ -7,6 +7,9 @@
    MHD_digest_auth_check3 / _check_digest3 / _check / _check2 / _check_digest /
    _check_digest2 / MHD_digest_auth_calc_userhash / _calc_userdigest are called exactly as
    an application calls them, from the access handler of a real request.
+   `failmalloc 1`: linked with -Wl,--wrap=malloc; while one of the six check functions runs every
+   malloc (the only ones are those of get_buffer_for_size) returns NULL.  The harness's own
+   allocations (cstr, lp_unhex, the daemon, the pool) are made outside that window.
    Protocol: see lean/Driver/Dauth.lean.  No source change in /repo is needed. */
 #include "MHD_config.h"
 #include "digestauth.c"
@@ -32,6 +35,18 @@ static struct lp_line *cur;      /* words of the current `req` line */
 static int act0;                 /* index of the first action word */
 static FILE *hout;
 static int handler_calls;
+
+/* ---- allocation failure injection (-Wl,--wrap=malloc) ---- */
+void *__real_malloc (size_t n);
+static int fail_flag;            /* `failmalloc <0|1>` */
+static int fail_now;             /* non-zero only while a check function of digestauth.c runs */
+static unsigned long failed_mallocs;
+void *__wrap_malloc (size_t n)
+{
+  if (fail_now) { failed_mallocs++; errno = ENOMEM; return NULL; }
+  return __real_malloc (n);
+}
+#define FAILING(stmt) do { fail_now = fail_flag; stmt; fail_now = 0; } while (0)
 
 static char *cstr (const char *hex)
 { /* exact-size zero-terminated copy of a hex-encoded C string (no NUL inside) */
@@ -120,16 +135,16 @@ static int do_action (struct MHD_Connection *c)
     {
       char *pw = cstr (w[3]);
       if (NULL == pw) { free (realm); free (user); return 0; }
-      r = MHD_digest_auth_check3 (c, realm, user, pw, (unsigned int) a, (uint32_t) b,
-                                  (enum MHD_DigestAuthMultiQOP) q, (enum MHD_DigestAuthMultiAlgo3) m);
+      FAILING (r = MHD_digest_auth_check3 (c, realm, user, pw, (unsigned int) a, (uint32_t) b,
+                                           (enum MHD_DigestAuthMultiQOP) q, (enum MHD_DigestAuthMultiAlgo3) m));
       free (pw);
     }
     else
     {
       size_t dl; uint8_t *dg = lp_unhex (w[3], &dl);   /* exact size */
       if (NULL == dg) { free (realm); free (user); return 0; }
-      r = MHD_digest_auth_check_digest3 (c, realm, user, dg, dl, (unsigned int) a, (uint32_t) b,
-                                         (enum MHD_DigestAuthMultiQOP) q, (enum MHD_DigestAuthMultiAlgo3) m);
+      FAILING (r = MHD_digest_auth_check_digest3 (c, realm, user, dg, dl, (unsigned int) a, (uint32_t) b,
+                                                  (enum MHD_DigestAuthMultiQOP) q, (enum MHD_DigestAuthMultiAlgo3) m));
       free (dg);
     }
     fprintf (hout, "r=%s", res_name (r));
@@ -151,8 +166,8 @@ static int do_action (struct MHD_Connection *c)
     {
       char *pw = cstr (w[3]);
       if (NULL == pw) { free (realm); free (user); return 0; }
-      r = two ? MHD_digest_auth_check2 (c, realm, user, pw, (unsigned int) a, (enum MHD_DigestAuthAlgorithm) al)
-              : MHD_digest_auth_check (c, realm, user, pw, (unsigned int) a);
+      FAILING (r = two ? MHD_digest_auth_check2 (c, realm, user, pw, (unsigned int) a, (enum MHD_DigestAuthAlgorithm) al)
+                       : MHD_digest_auth_check (c, realm, user, pw, (unsigned int) a));
       free (pw);
     }
     else
@@ -160,8 +175,8 @@ static int do_action (struct MHD_Connection *c)
       size_t dl; uint8_t *dg = lp_unhex (w[3], &dl);
       if (NULL == dg) { free (realm); free (user); return 0; }
       if (!two && MHD_MD5_DIGEST_SIZE != dl) { free (dg); free (realm); free (user); return 0; }
-      r = two ? MHD_digest_auth_check_digest2 (c, realm, user, dg, dl, (unsigned int) a, (enum MHD_DigestAuthAlgorithm) al)
-              : MHD_digest_auth_check_digest (c, realm, user, dg, (unsigned int) a);
+      FAILING (r = two ? MHD_digest_auth_check_digest2 (c, realm, user, dg, dl, (unsigned int) a, (enum MHD_DigestAuthAlgorithm) al)
+                       : MHD_digest_auth_check_digest (c, realm, user, dg, (unsigned int) a));
       free (dg);
     }
     fprintf (hout, "l=%s", legacy_name (r));
@@ -353,6 +368,11 @@ int main (void)
       else { lp_puthex (stdout, out, sz); putchar ('\n'); }
       free (user); free (realm); free (pw); free (out);
     }
+    else if (2 == l.n && !strcmp (l.w[0], "failmalloc") && (!strcmp (l.w[1], "0") || !strcmp (l.w[1], "1")))
+    {
+      fail_flag = ('1' == l.w[1][0]);
+      puts ("ok");
+    }
     else if (1 == l.n && !strcmp (l.w[0], "state") && rd)
     {
       printf ("n=%u", rd->nonce_nc_size);
@@ -373,5 +393,6 @@ int main (void)
   if (rd) MHD_stop_daemon (rd);
   free (rnd_copy);
   free (l.buf);
+  if (getenv ("H_DAUTH_MSTAT")) fprintf (stderr, "failed_mallocs=%lu\n", failed_mallocs);
   return 0;
 }
